@@ -522,7 +522,7 @@ def post_exchange(prop, runs, F):
     """artefact exchange: each build reports what it could do with the other build's artefacts"""
     out = {}
     for variant, streams in runs.items():
-        for c in streams.get("bn_xchg", []):
+        for c in streams.get("bn_xchg_make", []) + streams.get("bn_xchg", []):
             for r in c["impl"].get("results", []):
                 out[r["what"]] = out.get(r["what"], 0) + 1
                 if not r["ok"]:
